@@ -33,7 +33,7 @@ from .c03 import gen_cdda_model
 PROP = "C15"
 LEVEL = "fault_enumeration"
 RUNS = {"quick": 150, "thorough": 12000}
-TIME_CAP = {"quick": 400, "thorough": 1500}
+TIME_CAP = {"quick": 400, "thorough": 900}
 SELFCHECK_N = 4
 CHUNK = 1          # runs per worker task (cost-aware: keeps the time cap responsive)
 RULE = ("seeded AKAI (directories before or after the data), Roland and CDDA images, raw or inside 2352-byte sectors; each image is cut at "
